@@ -51,6 +51,7 @@ type failure struct {
 	Res    *sim.Result
 	Crash  bool
 	Stderr string
+	Alt    bool // found by the alternative (-race) worker
 }
 
 func (f *failure) key() string {
@@ -63,6 +64,9 @@ type runCtx struct {
 	worker []string
 	env    []string
 	info   map[string]any
+	// alternative worker (the -race build), used for one slice of a thorough run
+	altWorker []string
+	useAlt    bool
 
 	mu       sync.Mutex
 	runs     int
@@ -123,6 +127,11 @@ func (rc *runCtx) merge(st *sim.Stat) {
 func (rc *runCtx) addFailure(f *failure) {
 	rc.mu.Lock()
 	defer rc.mu.Unlock()
+	f.Alt = rc.useAlt
+	if f.Res != nil && f.Res.Violation != nil && strings.HasSuffix(f.Res.Violation.Invariant, ".ignored-race") {
+		rc.skipped["race report not attributable to the code under test"]++
+		return
+	}
 	if f.Crash {
 		rc.crashes++
 	}
@@ -132,9 +141,14 @@ func (rc *runCtx) addFailure(f *failure) {
 }
 
 func (rc *runCtx) command(args ...string) *exec.Cmd {
-	all := append(append([]string{}, rc.worker[1:]...), args...)
-	cmd := exec.Command(rc.worker[0], all...)
+	w := rc.worker
+	if rc.useAlt && rc.altWorker != nil {
+		w = rc.altWorker
+	}
+	all := append(append([]string{}, w[1:]...), args...)
+	cmd := exec.Command(w[0], all...)
 	cmd.Env = append(os.Environ(), rc.env...)
+	cmd.Env = append(cmd.Env, "GORACE=halt_on_error=1")
 	cmd.Dir = rc.cfg.scratch
 	return cmd
 }
@@ -166,7 +180,60 @@ func crashSignature(stderr string) string {
 	return msg + " @ " + where
 }
 
+var raceFrameRe = regexp.MustCompile(`(?m)^\s+(/\S+\.go):\d+`)
+
+// raceSignature inspects a race detector report. It returns ok=false unless BOTH stacks
+// of the first report contain a frame in the module under test (not in the harness, not
+// in a third-party module): the simulator's own park/release channels and the libraries
+// are not what the property is about.
+func raceSignature(stderr, repo string) (sig string, ok bool) {
+	i := strings.Index(stderr, "WARNING: DATA RACE")
+	if i < 0 {
+		return "", false
+	}
+	rep := stderr[i:]
+	if j := strings.Index(rep, "=================="); j > 0 {
+		rep = rep[:j]
+	}
+	parts := strings.SplitN(rep, "\n\n", 3)
+	if len(parts) < 2 {
+		return "", false
+	}
+	var sites []string
+	for _, stack := range parts[:2] {
+		found := ""
+		lines := strings.Split(stack, "\n")
+		for k, l := range lines {
+			m := raceFrameRe.FindStringSubmatch(l)
+			if m == nil || !strings.HasPrefix(m[1], repo+"/") || strings.Contains(m[1], "/zzverif/") || strings.Contains(m[1], "zz_lssim") {
+				continue
+			}
+			fn := ""
+			if k > 0 {
+				fn = strings.TrimSpace(lines[k-1])
+				if p := strings.IndexByte(fn, '('); p > 0 && strings.HasSuffix(fn, ")") {
+					fn = fn[:strings.LastIndexByte(fn, '(')]
+				}
+			}
+			found = fn
+			break
+		}
+		if found == "" {
+			return "", false
+		}
+		sites = append(sites, found)
+	}
+	return "data race: " + sites[0] + " / " + sites[1], true
+}
+
 func crashResult(prop string, run uint64, stderr string, why string) *sim.Result {
+	if strings.Contains(stderr, "WARNING: DATA RACE") {
+		repo := envOr("VERIF_REPO", "/repo")
+		if sig, ok := raceSignature(stderr, repo); ok {
+			return &sim.Result{Run: run, Violation: &sim.Violation{Invariant: prop + ".race", Signature: sig, Detail: why + "\n" + tail(stderr, 60)}}
+		}
+		return &sim.Result{Run: run, Skipped: "race report not attributable to the code under test", Violation: &sim.Violation{Invariant: prop + ".ignored-race", Signature: "harness-or-library", Detail: tail(stderr, 30)}}
+	}
 	return &sim.Result{Run: run, Violation: &sim.Violation{
 		Invariant: prop + ".crash",
 		Signature: crashSignature(stderr),
